@@ -12,7 +12,7 @@ META = {
                  "peek_type's own contract for byte 0xFF; R07.3 the TAG arm skips the enclosed item; R07.4 read_int "
                  "consumes 1/2/4/8 bytes big-endian for ai 24..27 and every reader rejects exactly the reserved ai values "
                  "(tabulated over all 32 ai values with a concrete mini-evaluator of the guards); R07.5 every reader "
-                 "takes its head through read_cbor_type. R07.1/R07.3 tabulate skip_item per (major type, class of additional information); R07.4 tracks input byte -> bit position; R07.8 is R03.8 on the decoder. R07.6 also tabulates read_array_start / read_map_start over 8 major types x 32 additional-information values: returned count, and the indefinite-length flag stored on every accepting path. R07.4 treats every alternative assembly loop (a fast path over buffered bytes, the byte-by-byte path) separately; window-state branches select the alternative. R07.9: the string read_string returns is only ever extended (no assign / = / clear). R07.10 = R05.5. R07.11 = R05.2 (every read through the cursor and every move of it stays inside the window: where an item lies relative to the 64 KiB refills does not change what is decoded). R07.12 = R05.6.",
+                 "takes its head through read_cbor_type. R07.1/R07.3 tabulate skip_item per (major type, class of additional information); R07.4 tracks input byte -> bit position; R07.8 is R03.8 on the decoder. R07.6 also tabulates read_array_start / read_map_start over 8 major types x 32 additional-information values: returned count, and the indefinite-length flag stored on every accepting path. R07.4 tabulates read_int per additional-information value over every path through the function and every way the argument can be split across refills (assembly.py: integer locals concrete, input bytes as byte-index -> bit-position maps, the window size chosen exhaustively); each returning path must yield the RFC 8949 big-endian layout and consume exactly the argument. Where that walk meets a construct it does not model, every alternative assembly loop (a fast path over buffered bytes, the byte-by-byte path) is analysed separately; window-state branches select the alternative. R07.9: the string read_string returns is only ever extended (no assign / = / clear). R07.10 = R05.5. R07.11 = R05.2 (every read through the cursor and every move of it stays inside the window: where an item lies relative to the 64 KiB refills does not change what is decoded). R07.12 = R05.6.",
     "explanation": "Structural/necessary conditions decided from the decoder's source: exhaustiveness of the dispatch, "
                    "caller/callee belief agreement on the stop code, finite tabulation of the additional-information "
                    "domain. Does not decide value equality for all encodings beyond the width table.",
@@ -464,7 +464,34 @@ def check_read_int(run, rule):
                 return tot
         return 0
 
-    if not loops:
+    # the general tabulation first (assembly.py): every path through the function for each of the four values, over every way
+    # the argument can be split across refills.  Only when it meets something it does not understand does the per-loop analysis
+    # below get its turn.
+    from .. import assembly
+    tab = {}
+    try:
+        for ai, want in ((24, 1), (25, 2), (26, 4), (27, 8)):
+            tab[ai] = assembly.explore(f, pname, ai, want, enums)
+    except minieval.Unknown as ex:
+        tab = None
+    if tab is not None:
+        for ai, want in ((24, 1), (25, 2), (26, 4), (27, 8)):
+            wantmap = {k_: 8 * (want - 1 - k_) for k_ in range(want)}
+            paths = tab[ai]
+            bad = [p_ for p_ in paths if not (p_[0] == "bytes" and p_[1] == wantmap and p_[2] == want)]
+            ok = bool(paths) and not bad
+            if ok:
+                txt = "consumes %d byte(s), most significant first, on each of the %d path(s) over the ways the argument can be split across refills" % (want, len(paths))
+            elif not paths:
+                txt = "no path returns for additional information %d" % ai
+            else:
+                b_ = bad[0]
+                shifts = [b_[1].get(k_) for k_ in sorted(b_[1])] if b_[0] == "bytes" else b_[1]
+                txt = "for additional information %d a path (window sizes chosen: %s) consumes %d byte(s) and returns them at bit positions %s; " \
+                      "RFC 8949 needs %d byte(s) big-endian %s" % (ai, list(b_[3]), b_[2], shifts, want, [8 * (want - 1 - k_) for k_ in range(want)])
+            run.ob(rule, "read_int:ai=%d" % ai, ok, f, f["line"], txt)
+        loops = []
+    elif not loops:
         for ai in (24, 25, 26, 27):
             run.ob(rule, "read_int:ai=%d" % ai, None, f, f["line"], "no loop assembling the argument with a shift was found")
     for li, (lp, ai, want) in enumerate((lp_, ai_, want_) for lp_ in loops for ai_, want_ in ((24, 1), (25, 2), (26, 4), (27, 8))):
